@@ -204,6 +204,8 @@ def oracle_c07(c):
 def oracle_c04(c, strict_failed=False):
     """the statement of C04 on one real run of a single scope.  With a listed finding's
     predicate true the clause the finding is about is relaxed (unless strict)."""
+    if not is_leaf(c):
+        return oracle_c04_nested(c, strict_failed)
     fails = []
     tr = c["trace"]
     if c.get("hung"):
@@ -284,6 +286,70 @@ def oracle_c04(c, strict_failed=False):
                 want = "nil" if out == "nil" else "err"
                 if ret != want:
                     fails.append("returned %s for a business outcome %s in a scope that is not the initiator" % (ret, out))
+    return fails
+
+
+def scopes_by_id(t, acc=None):
+    acc = {} if acc is None else acc
+    acc[t["id"]] = t
+    for k in (t.get("kids") or []):
+        scopes_by_id(k, acc)
+    return acc
+
+
+def oracle_c04_nested(c, strict_failed=False):
+    """C04 per transaction when the business of a scope opens further scopes (nesting on a shared
+    or fresh context): for every xid the coordinator handed out in this run, the scope that began
+    it -- and only that scope's outcome -- decides; nothing is decided for any other xid."""
+    fails = []
+    tr = c["trace"]
+    if c.get("hung"):
+        return ["the call did not return"]
+    if any(e["k"] == "ret" and e["r"] == "panic" for e in tr):
+        return ["WithGlobalTx crashed (panic) instead of returning an error"]
+    diverged = any(e["k"] == "diverge" for e in tr)
+    scopes = scopes_by_id(c["tree"])
+    reqs = [e for e in tr if e["k"] == "req"]
+    rets = {e["n"]: e["r"] for e in tr if e["k"] == "ret"}
+    acks = ("o",) if (strict_failed or not pred_failed_result(c)) else ("o", "f")
+    owner, nx = {}, 0
+    for e in reqs:
+        if e["q"] == "begin" and e["r"] == "o":
+            nx += 1
+            owner[nx] = e["n"]
+    for e in reqs:
+        if e["q"] != "begin" and e["n"] not in owner:
+            fails.append("%s requested for xid %d, a transaction no scope of this run began" % (e["q"], e["n"]))
+            return fails
+    for x, sid in owner.items():
+        s = scopes.get(sid)
+        if s is None:
+            fails.append("begin under an unknown name %d" % sid)
+            continue
+        sp = [e for e in reqs if e["q"] != "begin" and e["n"] == x]
+        commits = [e for e in sp if e["q"] == "commit"]
+        rollbacks = [e for e in sp if e["q"] == "rollback"]
+        what = "xid %d begun by scope %d (%s, business %s)" % (x, sid, s["m"], s["out"])
+        if commits and (s["out"] != "nil" or rollbacks):
+            fails.append("%s: a commit was requested although %s" % (what, "its business did not succeed" if s["out"] != "nil" else "it was also rolled back"))
+        if rollbacks and s["out"] == "nil":
+            fails.append("%s: a rollback was requested although its business returned nil" % what)
+        if c["cancel"] < 0 and not diverged and sid in rets:
+            if s["out"] == "nil" and not commits:
+                fails.append("%s: its business returned nil, context alive, but no commit was requested" % what)
+            if s["out"] != "nil" and not rollbacks:
+                fails.append("%s: its business failed, context alive, but no rollback was requested" % what)
+        n = c["nc"] if s["out"] == "nil" else c["nr"]
+        if n >= 1 and len(sp) > n:
+            fails.append("%s: %d second-phase sends with a configured retry count of %d" % (what, len(sp), n))
+        if any(e["r"] not in TRANSPORT for e in sp[:-1]):
+            fails.append("%s: a second-phase request was repeated after a reply that was not a transport failure" % what)
+        if sid in rets and not diverged:
+            acked = bool(commits) and sp[-1]["r"] in acks
+            if rets[sid] == "nil" and not (s["out"] == "nil" and acked):
+                fails.append("%s: returned nil although %s" % (what, "its business failed" if s["out"] != "nil" else "the commit was not acknowledged"))
+    if diverged and not pred_retry0_forever(c):
+        fails.append("the call did not terminate (send cap reached)")
     return fails
 
 
